@@ -59,6 +59,14 @@ def lattice(rng, n_random):
     return vals
 
 
+EQUAL_LOOKING = [
+    [0, False, 0.0, Decimal(0)],
+    [1, True, 1.0, Decimal(1), Decimal("1.0")],
+    [datetime(2024, 1, 31), date(2024, 1, 31)],
+    ["1", 1], ["true", True], ["", 0],
+]
+
+
 def canon_ok(v, got) -> bool:
     """`got` is an equal value of the corresponding type (DESIGN.md C06 'Reading')"""
     if v is None:
@@ -234,6 +242,14 @@ def run(chk: core.Check) -> None:
     plan = [(v, None) for v in vals]
     for v in vals[:: 2 if chk.tier == "quick" else 1]:
         plan.append((v, rng.choice(nonnull)))
+    # overwriting a value with one that Python's == takes for the same but that has another type (an update that
+    # "skips unchanged values" keeps the old type): every ordered pair of each group
+    for grp in EQUAL_LOOKING:
+        for a in grp:
+            for b in grp:
+                if type(a) is not type(b):
+                    plan.append((b, a))
+                    chk.count("overwrite", "equal for ==, other type")
     for v, prev in plan:
         nontriv = repr(v) in boundary_repr
         for cname, make in carriers(v, prev):
@@ -314,6 +330,12 @@ def run(chk: core.Check) -> None:
                 prev = rng.choice(nonnull)
                 case["previous"] = repr(prev)
                 chk.count("overwrite", f"meta {vclass(prev)} -> {vclass(v)}")
+                if i % 6 == 1 and type(v) in (bool, int, float, Decimal):
+                    # a previous value that == takes for the same, of another type
+                    alts = [a for grp in EQUAL_LOOKING[:2] if any(type(a) is type(v) and a == v for a in grp) for a in grp if type(a) is not type(v)]
+                    if alts:
+                        prev = rng.choice(alts)
+                        case["previous"] = repr(prev)
                 meta.set_user_defined_metadata(name, prev)
             meta.set_user_defined_metadata(name, v)
             got = meta.get_user_defined_metadata()[name]
@@ -324,6 +346,45 @@ def run(chk: core.Check) -> None:
             chk.fail({**case, "got": repr(got)}, "user-defined metadata: the value read back is not an equal value of the corresponding type")
             continue
         stored[name] = v
+    # the same through the whole-mapping assignment `meta.user_defined_metadata = {...}`, on names that already hold a value
+    # (random other value, or one that == takes for the same), others being left out of the mapping (they must go)
+    pairs = [(rng.choice(nonnull), rng.choice(nonnull)) for _ in range(chk.n(60, 600))]
+    for grp in EQUAL_LOOKING:
+        pairs += [(a, b) for a in grp for b in grp if type(a) is not type(b)]
+    for k in range(0, len(pairs), 4):
+        chunk = pairs[k:k + 4]
+        doc3 = Document("text")
+        m3 = doc3.meta
+        try:
+            first = {f"n{j}": a for j, (a, _b) in enumerate(chunk)}
+            first["gone"] = "x"
+            if k % 8:
+                m3.user_defined_metadata = first
+            else:
+                for nm, a in first.items():
+                    m3.set_user_defined_metadata(nm, a)
+            second = {f"n{j}": b for j, (_a, b) in enumerate(chunk)}
+            m3.user_defined_metadata = second
+            got_all = m3.get_user_defined_metadata()
+            bio = io.BytesIO(); doc3.save(bio); bio.seek(0)
+            again_all = Document(bio).meta.get_user_defined_metadata()
+        except Exception as e:  # noqa: BLE001
+            chk.fail({"carrier": "meta.user_defined_metadata = mapping", "pairs": repr(chunk), "exception": repr(e), "vclass": "exception"},
+                     f"assigning the mapping of user-defined metadata raised {type(e).__name__}")
+            continue
+        for j, (a, b) in enumerate(chunk):
+            chk.count("carrier", "meta.user_defined_metadata = mapping")
+            chk.count("overwrite", f"mapping {vclass(a)} -> {vclass(b)}")
+            chk.case(("meta-map", repr(a), repr(b)), nontrivial=True)
+            for where, allv in (("", got_all), (" + save + reopen", again_all)):
+                g = allv.get(f"n{j}")
+                if not canon_ok(b, g) and not (isinstance(b, (int, float)) and not isinstance(b, bool) and isinstance(g, Decimal) and float(g) == float(b)):
+                    chk.fail({"carrier": "meta.user_defined_metadata = mapping" + where, "previous": repr(a), "value": repr(b), "vclass": vclass(b), "got": repr(g)},
+                             "user-defined metadata assigned as a mapping: the value read back is not an equal value of the corresponding type")
+                    break
+        if set(got_all) != set(second):
+            chk.fail({"carrier": "meta.user_defined_metadata = mapping", "assigned": sorted(second), "holds": sorted(got_all), "vclass": "names"},
+                     "after assigning the mapping the metadata hold other names than the mapping")
     # cells in a spreadsheet saved and reopened
     sdoc = Document("spreadsheet")
     sdoc.body.clear()
